@@ -368,6 +368,42 @@ func (w *World) Send(sid string, o SendOpt) int {
 	return id
 }
 
+// Broadcast sends ONE message to several sessions the way a broadcasting application does: one packet.Options value
+// carrying one pre-encoded frame, shared by all the sends (each send has its own data buffer).
+func (w *World) Broadcast(sids []string, size int, bin bool) int {
+	w.mu.Lock()
+	w.midN++
+	id := w.midN
+	p := MsgPayload("m", id, size, bin, 0)
+	w.sent[id] = p
+	w.mu.Unlock()
+	opts := &packet.Options{Compress: true}
+	if bin {
+		opts.WsPreEncodedFrame = types.NewBytesBuffer(append([]byte(nil), p...))
+	} else {
+		opts.WsPreEncodedFrame = types.NewStringBufferString("4" + string(p))
+	}
+	for _, sid := range sids {
+		s := w.Sock(sid)
+		if s == nil {
+			continue
+		}
+		var data io.Reader
+		if bin {
+			data = types.NewBytesBuffer(append([]byte(nil), p...))
+		} else {
+			data = types.NewStringBufferString(string(p))
+		}
+		w.mu.Lock()
+		w.byData[data] = id
+		w.mu.Unlock()
+		w.rec.Log("app.send.call", append(w.snap(s), "id", id, "bin", bin, "len", len(p), "cb", false, "pre", true)...)
+		s.Send(data, opts, nil)
+		w.rec.Log("app.send.ret", append(w.snap(s), "id", id)...)
+	}
+	return id
+}
+
 func (w *World) Close(sid string, discard bool) {
 	s := w.Sock(sid)
 	if s == nil {
